@@ -23,6 +23,7 @@ var crashKinds = []string{
 	"deletions-unacked",         // packed meta uploaded, all small ones deleted, crash before the ack
 	"freeze-at-packed-upload",   // crash when the packed meta is about to be written
 	"crash-right-after-trigger", // crash as soon as the triggering receive returned (wherever the goroutine is)
+	"packed-upload-fails",       // no crash: the meta store refuses the packed upload; the small meta blobs stay and accumulate
 	"none",
 }
 
@@ -64,6 +65,9 @@ func runHistory(r *ev.Run, root string, h int) {
 	kind := crashKinds[h%len(crashKinds)]
 	if kind != "none" && n < 230 {
 		n += 110 // room for a second compaction should the first one end by the benign index race
+	}
+	if kind == "packed-upload-fails" && n < 360 {
+		n = 360 + rng.Intn(60) // the restart of this scenario happens with > 320 small meta blobs below
 	}
 	hs := &history{r: r, in: in, id: id, rng: rng, sc: newScanner(), acked: map[blob.Ref]int{}, unsure: map[blob.Ref]int{}, lost: map[blob.Ref]bool{},
 		rec: &histRec{CaseID: id + ";", Receives: n, Crash: kind}}
@@ -136,6 +140,16 @@ func runHistory(r *ev.Run, root string, h int) {
 				return
 			}
 		}
+		if hs.armed == "packed-upload-fails" && in.meta.packedFailed(in.inc) > 0 && in.meta.mem.NumBlobs() >= heapLimit+220 {
+			// the packed upload was refused, the store "lost track" of the small meta blobs and more
+			// have been written since: restart now, with well over 100 small meta blobs below
+			in.crash()
+			hs.armed = "none"
+			if !hs.restart("after-failed-packed-upload") {
+				return
+			}
+			continue
+		}
 		if in.plan.Frozen() {
 			in.crash()
 			label := hs.classifyCrash()
@@ -197,6 +211,12 @@ func runHistory(r *ev.Run, root string, h int) {
 	r.Sample(hs.rec)
 }
 
+func (l *lowStore) packedFailed(inc int) int {
+	l.mu.Lock()
+	defer l.mu.Unlock()
+	return l.packedFail[inc]
+}
+
 func (l *lowStore) packedTotal() int {
 	l.mu.Lock()
 	defer l.mu.Unlock()
@@ -220,11 +240,13 @@ func (hs *history) open(kind string) error {
 			p.Match = func(layer, op string) bool { return layer == "meta" && op == "RemoveBlobs" }
 			p.FaultAt(0, inject.Freeze)
 		}
-	case "partial-deletions", "deletions-unacked", "freeze-at-packed-upload":
+	case "partial-deletions", "deletions-unacked", "freeze-at-packed-upload", "packed-upload-fails":
 		k := hs.rng.Intn(1000)
 		in.meta.mu.Lock()
 		in.meta.hook = func(op string, refs []blob.Ref, size int) (action, int, bool) {
 			switch {
+			case kind == "packed-upload-fails" && op == "ReceiveBlob" && size >= packedMin:
+				return actFail, 0, false
 			case kind == "freeze-at-packed-upload" && op == "ReceiveBlob" && size >= packedMin:
 				return actFail, 0, true
 			case kind == "partial-deletions" && op == "RemoveBlobs" && len(refs) > 1:
@@ -285,9 +307,15 @@ func (hs *history) restart(label string) bool {
 	noteCompactions(r, in)
 	hs.rec.Restarts = append(hs.rec.Restarts, fmt.Sprintf("%s@%d", label, len(hs.ackSeq)))
 	for attempt := 0; ; attempt++ {
+		if attempt == 0 {
+			r.Note("restarts", label)
+		}
 		err := hs.open(hs.armed)
 		if err == nil {
 			break
+		}
+		if err == errHang {
+			return false // reported by the creation watchdog; the lower memory store is now locked up
 		}
 		if in.lastPlan.Frozen() && attempt < 3 {
 			in.crash()
@@ -302,7 +330,6 @@ func (hs *history) restart(label string) bool {
 		r.Violation("unrecoverable/"+sigLabel(label), fmt.Sprintf("%s: after a restart (%s) with the meta index lost, the store cannot be created from the wrapped stores: %v (acknowledged blobs: %d)", hs.id, label, err, len(hs.acked)), hs.rec)
 		return false
 	}
-	r.Note("restarts", label)
 	r.Count("restarts", 1)
 	hs.verify(label)
 	return true
